@@ -229,6 +229,17 @@ def gen_cases(rng, tier):
         yield gen_scheduler_case(rng, tier)
     for _ in range(n_m):
         yield gen_manager_case(rng, tier)
+    # geometric systems whose largest level is an exact power of the reduction factor times the smallest one (the number of rung
+    # levels is a count of multiplications, not a rounded logarithm)
+    powers = [(1, "5", 125), (1, "6", 216), (1, "7", 343), (2, "5", 250), (1, "10", 1000), (1, "3", 243), (3, "5", 375), (1, "6", 1296)]
+    for i in range(4 if tier == "quick" else len(powers)):
+        mn, rf, mx = powers[(i + rng.randrange(len(powers))) % len(powers)] if tier == "quick" else powers[i]
+        spec = gen_scheduler_case(rng, tier)
+        spec["ctor"].pop("bracket_rungs", None)
+        spec["ctor"]["geometric"] = {"min": mn, "max": mx, "rf": rf, "brackets": rng.choice([None, 1, 2])}
+        spec["max_events"] = 12
+        spec["report_all"] = False
+        yield spec
     # infinite metric values (monitor only: the model's metrics are rationals or NaN): +-inf is a value like any other, it ranks
     # first or last among the valid entries of its rung and is not a failure
     for _ in range(12 if tier == "quick" else 150):
